@@ -23,6 +23,8 @@ if with_locations:
     # location-based routing: one static location; everything else falls to the server's default (404) handler
     from nauyaca.server.location import LocationConfig, HandlerType
     extra["locations"] = [LocationConfig(prefix="/docs/", handler_type=HandlerType.STATIC, document_root=Path(root))]
+if os.environ.get("NV_LIVE_MAX_FILE_SIZE"):
+    extra["max_file_size"] = int(os.environ["NV_LIVE_MAX_FILE_SIZE"])
 cfg = ServerConfig(host="127.0.0.1", port=int(port), document_root=Path(root), certfile=Path(cert), keyfile=Path(key),
                    enable_rate_limiting=False, enable_access_control=False, require_client_cert=(reqcert == "1"), **extra)
 # INFO: the request log (and whatever processes its fields) is part of the path of every response
@@ -134,6 +136,39 @@ def run_whole_responses(res, tier, pid="C01"):
                                                          "head": got[:40].decode("latin-1"), "ended": ended}})
             finally:
                 srv.stop()
+    finally:
+        shutil.rmtree(tmp, ignore_errors=True)
+
+def run_exact_maximum(res, tier, pid="C06"):
+    """ "multi-megabyte bodies up to the configured maximum": a static file of EXACTLY max_file_size bytes (and one byte less) arrives
+    whole on both backends; one byte more is refused.  max_file_size comes from the configuration (ServerConfig -> start_server)."""
+    tmp = scratch_dir("nv-live6-")
+    limit = 70001
+    try:
+        os.makedirs(os.path.join(tmp, "capsule"))
+        files = {"exact.txt": make_body(limit), "below.txt": make_body(limit - 1), "above.txt": make_body(limit + 1)}
+        for n, b in files.items(): open(os.path.join(tmp, "capsule", n), "wb").write(b)
+        os.environ["NV_LIVE_MAX_FILE_SIZE"] = str(limit)
+        try:
+            for backend in ("stdlib", "pyopenssl"):
+                srv = Server(tmp, backend, 0.0)
+                try:
+                    for n, b in files.items():
+                        got, ended = fetch(srv.port, "/" + n, 0.0, timeout=30)
+                        res.evaluations += 1; res.count("live-exact-max:" + backend); res.nontriv(("live-exact-max", backend, n))
+                        if n == "above.txt":
+                            ok = got[:1] in (b"4", b"5") and got.endswith(b"\r\n") and got.count(b"\r\n") == 1
+                        else:
+                            ok = got == b"20 text/plain\r\n" + b
+                        if not ok or ended != "eof":
+                            res.violations.append({"clause": "a body of exactly the configured maximum (and of one byte less) arrives complete; one byte more is refused (live, %s backend)" % backend,
+                                                   "signature": "%s:live-exact-max-%s" % (pid, backend),
+                                                   "case": {"backend": backend, "max_file_size": limit, "file_size": len(b)},
+                                                   "trace": {"received_bytes": len(got), "head": got[:60].decode("latin-1"), "ended": ended}})
+                finally:
+                    srv.stop()
+        finally:
+            del os.environ["NV_LIVE_MAX_FILE_SIZE"]
     finally:
         shutil.rmtree(tmp, ignore_errors=True)
 
